@@ -9,7 +9,9 @@ import (
 	"encoding/json"
 	"fmt"
 	"os"
+	"runtime"
 	"testing"
+	"time"
 )
 
 type replayFile struct {
@@ -147,6 +149,20 @@ func Thorough() bool { return os.Getenv("VERIF_TIER") == "thorough" }
 
 // Emit prints a named value (selftest corpus).
 func Emit(name string, v uint64) { fmt.Printf("VS-EMIT %s=%d\n", name, v) }
+
+// Schedules switches the engine to schedule exploration: goroutines become threads whose
+// interleaving at blocking operations and - up to the given number of preemptions - at
+// synchronisation operations (sync/atomic, sync.Map, mutex, channel) is enumerated.
+func Schedules(preemptions int) {}
+
+// Join runs every goroutine until it has finished or is blocked for good.
+func Join() { time.Sleep(20 * time.Millisecond) }
+
+// Yield lets other goroutines run.
+func Yield() { runtime.Gosched() }
+
+// Parked reports how many goroutines are still alive (blocked) in the engine; natively unknown (0).
+func Parked() int { return 0 }
 
 // Trace records a named intermediate value (debugging aid; shown with counterexamples).
 func Trace(name string, v uint64)   { fmt.Printf("VS-TRACE %s=%d\n", name, v) }
